@@ -284,7 +284,7 @@ def load_known():
 def write_replay(pid, payload):
     blob = json.dumps(payload, sort_keys=True).encode()
     h = hashlib.sha1(blob).hexdigest()[:12]
-    d = os.path.join(VERIF, "replays", pid)
+    d = os.path.join(os.environ.get("VERIF_OUT_DIR", VERIF), "replays", pid)
     os.makedirs(d, exist_ok=True)
     p = os.path.join(d, h + ".json")
     with open(p, "w") as f:
@@ -295,7 +295,7 @@ def write_replay(pid, payload):
 def write_evidence(pid, tier, level, coverage, wall, violations, assumptions):
     ev = {"property_id": pid, "tier": tier, "seed": seed(), "level": level, "coverage": coverage,
           "assumptions": assumptions, "wall_s": round(wall, 2), "violations": violations}
-    d = os.path.join(VERIF, "evidence")
+    d = os.path.join(os.environ.get("VERIF_OUT_DIR", VERIF), "evidence")
     os.makedirs(d, exist_ok=True)
     with open(os.path.join(d, pid + ".json"), "w") as f:
         json.dump(ev, f, indent=1)
